@@ -243,3 +243,137 @@ def incoming_literal_sets(b, F, bb, depth=3):
             else:
                 out.append(lits)
     return out
+
+
+def local_defs_fmt(body, F, local):
+    """formatted definitions of one local (every assignment / call result stored into it)"""
+    from .facts import fmt_sym
+    out = []
+    for d in body.defs().get(local, []):
+        if d[0] == 'stmt':
+            out.append(fmt_sym(body, F.sym_rvalue(d[3], 0)))
+        elif d[0] == 'call':
+            out.append(fmt_sym(body, F.sym_call(d[2])))
+    return out
+
+
+def verdict_guard(body, F, lits, want_rx):
+    """Is one of the literals `X == true` where X is (a variable every definition of which is) a value matching want_rx?
+    Returns (True, description) or (False, reason).  The variable is found through the guard, not by its name."""
+    import re as _re
+    from .facts import fmt_sym
+    why = 'no guard on a boolean verdict dominates it'
+    for l, e in lits:
+        if l[0] != 'truth' or l[2] is not True:
+            continue
+        x = l[1]
+        if x[0] == 'place' and not x[2]:
+            defs = local_defs_fmt(body, F, x[1])
+            bad = [d for d in defs if not _re.search(want_rx, d)]
+            if defs and not bad:
+                return True, '`%s` (%d definition(s), each the primitive\'s boolean)' % (fmt_sym(body, x), len(defs))
+            why = '`%s` is not the boolean returned by the verification primitive (%s)' % (fmt_sym(body, x), (bad or ['no definition'])[0][:100])
+        elif _re.search(want_rx, fmt_sym(body, x)):
+            return True, fmt_sym(body, x)[:80]
+    return False, why
+
+
+def bool_fn_outcomes(ctx, path, value):
+    """For a local function returning bool: one list of literals (raw, in the function's own terms) per way of answering
+    `value` - the literals dominating that assignment of the return place plus what the assigned expression being `value`
+    implies.  None when the function is not of that shape."""
+    b = ctx.db.body(path)
+    if b is None or b.locals[0] != 'bool':
+        return None
+    F = ctx.facts(b)
+    out = []
+    for d in b.defs().get(0, []):
+        if d[0] == 'stmt':
+            rv = d[3]
+            base = [l for l, e in F.literals_at(d[1], d[2])]
+            if rv[0] == 'use' and rv[1][0] == 'k':
+                v = rv[1][1] in ('1', 'true')
+                if v != value:
+                    continue
+                out.append(base)
+            else:
+                e = F.sym_rvalue(rv, 0, d[1])
+                out.append(base + list(F._truth(e, value)))
+        elif d[0] == 'call':
+            base = [l for l, e in F.literals_at(d[1])]
+            out.append(base + list(F._truth(F.sym_call(d[2]), value)))
+        else:
+            return None
+    return out or None
+
+
+class VCall:
+    """a call seen from a root function, possibly made inside a private helper the root calls: `args` are symbolic values in
+    the root's terms (helper parameters replaced by the root's arguments; other helper locals renumbered out of the way)"""
+    __slots__ = ('callee', 'args', 'loc', 'root_bb', 'via', 'call', 'body', 'facts', 'lift')
+
+    def __init__(self, callee, args, loc, root_bb, via, call, body, facts, lift):
+        self.callee = callee; self.args = args; self.loc = loc; self.root_bb = root_bb; self.via = via
+        self.call = call; self.body = body; self.facts = facts; self.lift = lift
+
+
+def virtual_calls(ctx, b, F, inline_rx, depth=2):
+    """calls of `b` with the calls of the helpers it invokes (callee path matching inline_rx, bodies available, no recursion)
+    spliced in.  The helper call itself is not listed when it was expanded."""
+    import re as _re
+    rx = _re.compile(inline_rx)
+    out = []
+
+    def walk(body, Fb, lift, root_bb, via, d):
+        for c in body.calls():
+            args = [lift(Fb.sym_operand(a)) for a in c.args]
+            hb = ctx.db.body(c.callee) if (d > 0 and rx.search(c.callee) and c.callee != body.path and c.callee not in via) else None
+            if hb is None:
+                out.append(VCall(c.callee, args, c.loc, root_bb if root_bb is not None else c.bb, via, c, body, Fb, lift))
+                continue
+            level = len(via) + 1
+            Fh = ctx.facts(hb)
+
+            def mk(args_, hb_=hb, level_=level):
+                def lift2(sy):
+                    if not isinstance(sy, tuple) or not sy:
+                        return sy
+                    if sy[0] == 'place' and isinstance(sy[1], int):
+                        if 1 <= sy[1] <= hb_.argc and sy[1] - 1 < len(args_):
+                            return F._project(args_[sy[1] - 1], sy[2])
+                        if sy[1] < 100000:
+                            return ('place', sy[1] + 100000 * level_, sy[2])
+                        return sy
+                    return tuple(lift2(x) if isinstance(x, tuple) else ([lift2(y) for y in x] if isinstance(x, list) else x) for x in sy)
+                return lift2
+            walk(hb, Fh, mk(args), root_bb if root_bb is not None else c.bb, via + (c.callee,), d - 1)
+        # closures built in this body (loop bodies of for_each / retain / map ..): their calls, with captured variables replaced
+        for bi, blk in enumerate(body.blocks):
+            if blk['c']:
+                continue
+            for st in blk['s']:
+                if st[0] == '=' and st[2][0] == 'agg' and st[2][1] == 'closure' and st[2][2] not in via:
+                    cb = ctx.db.body(st[2][2])
+                    if cb is None:
+                        continue
+                    env = [lift(Fb.sym_operand(o)) for o in st[2][4]]
+                    level = len(via) + 1
+
+                    def mkc(env_, cb_=cb, level_=level):
+                        def liftc(sy):
+                            if not isinstance(sy, tuple) or not sy:
+                                return sy
+                            if sy[0] == 'place' and isinstance(sy[1], int):
+                                if sy[1] == 1:
+                                    pr = sy[2][1:] if sy[2][:1] == ('*',) else sy[2]
+                                    if pr and pr[0].startswith('.') and pr[0][1:].isdigit() and int(pr[0][1:]) < len(env_):
+                                        return F._project(env_[int(pr[0][1:])], pr[1:])
+                                if sy[1] < 100000:
+                                    return ('place', sy[1] + 100000 * level_ + 50000, sy[2])
+                                return sy
+                            return tuple(liftc(x) if isinstance(x, tuple) else ([liftc(y) for y in x] if isinstance(x, list) else x) for x in sy)
+                        return liftc
+                    walk(cb, ctx.facts(cb), mkc(env), root_bb if root_bb is not None else bi, via + (st[2][2],), d)
+
+    walk(b, F, lambda x: x, None, (), depth)
+    return out
